@@ -14,6 +14,12 @@ flip, NaN payload change, dict reorder, str<->bytes, unrelated.  Compared with t
 of `==` and the three `hash(x) == hash(y)` (model: structural equality of symbolic hash keys with exact
 CPython int/float hashes).  Oracle (independent of the model, class names + struct.pack bit patterns):
 reflexive, symmetric, transitive, equal => equal hashes, same observable <=> equal, parsed twice => equal.
+A further family builds SEQUENCES of attributes in one process through `Data.get` and the parameter
+converters (ComplexNumberAttr, LLVMArrayType, TupleType, FusedLoc, X.get(payload)) with ==-equal but observably
+different payloads in both orders (0.0/-0.0, 1/True, NaN payloads) and checks that each attribute carries its
+constructor arguments and equals the attribute parsed from its own text; the OperationInfo family includes
+attribute pairs at CPython hash-collision boundaries (-1/-2, 0/2^61-1, 1/2^61) and demands that equal keys mean
+observably equal operations.
 Non-trivial: the triple contains a float leaf, a container, or an off-diagonal equality; distinct =
 distinct spec triple / text.
 """
@@ -298,7 +304,7 @@ def coq_val(t) -> str:
 
 
 # ---------------------------------------------------------------------------- the independent observable (oracle)
-def observe(a, mode="bits", erase_handles=False):
+def observe(a, mode="bits", erase_handles=False, strict_bool=False):
     """What can be observed of an attribute WITHOUT using == or hash: class (by module and qualified name),
     payloads, float payloads as packed binary64 bytes.  mode 'relax': zero signs and NaN payloads erased;
     'nozero' / 'nonan': only one of the two erased."""
@@ -324,6 +330,8 @@ def observe(a, mode="bits", erase_handles=False):
             return ["enum", type(x).__qualname__, x.name]
         if isinstance(x, float):
             return ["float", fl(x)]
+        if strict_bool and isinstance(x, bool):
+            return ["bool", int(x)]
         if isinstance(x, int):
             return ["int", x]
         if isinstance(x, str):
@@ -999,6 +1007,23 @@ def oi_holds(case, res):
         return False, f"OperationInfo == is not symmetric: {ab} vs {ba}"
     if ab == 1 and h != 1:
         return False, "equal OperationInfo keys with different hashes"
+    if ab == 1:
+        # independent of the model: what the two operations really carry
+        _prov, ops = build_ops(case)
+        mode = "relax" if VARIANT == "cur" else "bits"
+
+        def desc(op):
+            from xdsl.transforms.common_subexpression_elimination import OperationInfo
+            return {"name": OperationInfo(op).name,
+                    "attributes": sorted((k, observe(v, mode)) for k, v in op.attributes.items()),
+                    "properties": sorted((k, observe(v, mode)) for k, v in op.properties.items()),
+                    "result_types": [observe(t, mode) for t in op.result_types],
+                    "operands": [id(v) for v in op.operands]}
+        da, db = desc(ops[0]), desc(ops[1])
+        for k in da:
+            if da[k] != db[k]:
+                return False, (f"equal OperationInfo keys (CSE would merge the operations) although their {k} differ: "
+                               f"{json.dumps(da[k])[:200]} vs {json.dumps(db[k])[:200]}")
     if case["ops"][0] == case["ops"][1] and ab != 1:
         # same description: must be equal unless a NaN attribute makes the hashes differ (C08-kf-3 class)
         if not (h == 0 and "nan" in json.dumps([_spec_nan(case["ops"][0])])):
@@ -1025,7 +1050,15 @@ def oi_nontrivial(case, res):
 
 
 def gen_opinfo(rng, n):
+    P = (1 << 61) - 1
     cases = []
+    for x, y in ((-1, -2), (0, P), (1, 1 << 61)):
+        for mk in (lambda v: ["integer", v, 64, 1], lambda v: ["int", v]):
+            base = {"name": "test.op", "attrs": [[[118], mk(x)]], "props": [], "results": [["itype", 64, 1]],
+                    "operands": [], "regions": []}
+            other = copy.deepcopy(base)
+            other["attrs"][0][1] = mk(y)
+            cases.append({"ops": [base, other]})
     while len(cases) < n:
         def attrs(keys):
             ks = rng.sample(keys, rng.randint(0, len(keys)))
@@ -1036,7 +1069,25 @@ def gen_opinfo(rng, n):
              "regions": [rng.choice([-1, 0, 1, 2]) for _ in range(rng.choice([0, 0, 1, 2]))]}
         a["props"] = attrs(["prop1", "prop2", "prop3"]) if a["name"] == "test.op" else attrs(["p", "q"])
         b = copy.deepcopy(a)
-        kind = rng.choice(["same", "same", "name", "attr", "attrdrop", "prop", "result", "operand", "region", "regioncount", "order"])
+        kind = rng.choice(["same", "same", "name", "attr", "attrdrop", "prop", "result", "operand", "region", "regioncount", "order",
+                           "collide", "collide", "collide"])
+        if kind == "collide":
+            # payload pairs at CPython hash-collision boundaries: different attributes, equal hashes
+            P = (1 << 61) - 1
+            x, y = rng.choice([(-1, -2), (0, P), (1, 1 << 61), (-1, -P - 1), (2, P + 2), (0, -P)])
+            if rng.random() < 0.5:
+                x, y = y, x
+            form = rng.choice(["int", "integer", "index", "fdata", "array"])
+            mk = {"int": lambda v: ["int", v], "integer": lambda v: ["integer", v, 64, 1], "index": lambda v: ["index", v],
+                  "fdata": lambda v: ["fdata", bits_of(float(v)), None],
+                  "array": lambda v: ["array", [["int", v], ["str", [97]]]]}[form]
+            where = "props" if a["props"] and rng.random() < 0.4 else "attrs"
+            if not a[where]:
+                a[where] = [[[ord("p")] + [ord(c) for c in "rop1"], None]] if where == "props" and a["name"] == "test.op" else [[[97], None]]
+                b = copy.deepcopy(a)
+            i = rng.randrange(len(a[where]))
+            a[where][i][1] = mk(x)
+            b[where][i][1] = mk(y)
         if kind == "name":
             b["name"] = rng.choice([x for x in OP_NAMES if x != a["name"]])
             if (b["name"] == "test.op") != (a["name"] == "test.op"):
@@ -1118,6 +1169,217 @@ def corpus_texts(rng, nfiles, stats):
     stats["corpus_chunks_parsed"] = parsed
     stats["corpus_distinct_attribute_texts"] = len(texts)
     return texts
+
+
+# ---------------------------------------------------------------------------- sequences through Data.get / converters
+# Constructors that take RAW python payloads and convert them with `Data.get` (param_def(converter=X.get)) and
+# direct `X.get(payload)` calls, executed one after the other in ONE process with ==-equal but observably
+# different payloads in both orders (0.0 / -0.0, 1 / True, NaN payload variants, equal tuples of them).
+SEQ_FLOATS = [0, NEG_ZERO, bits_of(1.0), bits_of(-1.0), bits_of(0.5), bits_of(2.5), CANON_NAN, CANON_NAN + 1,
+              0xFFF8000000000000, 0x7FF0000000000000, bits_of(2.0 ** 61)]
+
+
+REPARSE_SAFE = {0, NEG_ZERO, bits_of(1.0), bits_of(-1.0), bits_of(0.5), bits_of(2.5)}   # printed exactly by print_float
+
+
+def seq_build(step, env):
+    """one step -> (built attribute, expected observable computed from the ARGUMENTS, printable-and-reparsable?)"""
+    from xdsl.dialects import builtin as b
+    k = step[0]
+
+    def fd_obs(bits):
+        return ["data", "xdsl.dialects.builtin.FloatData", ["float", struct.pack("<d", f_from_bits(bits)).hex()]]
+
+    def obs(x):
+        return json.loads(observe(x, strict_bool=True))
+
+    if k == "get_float":
+        return b.FloatData.get(f_from_bits(step[1])), fd_obs(step[1]), step[1] in REPARSE_SAFE
+    if k == "get_int":
+        v = bool(step[1]) if step[2] else step[1]
+        return b.IntAttr.get(v), ["data", "xdsl.dialects.builtin.IntAttr", ["bool" if step[2] else "int", step[1]]], not step[2]
+    if k == "get_str":
+        return b.StringAttr.get(s2str(step[1])), ["data", "xdsl.dialects.builtin.StringAttr", ["str", s2str(step[1])]], False
+    if k == "get_array":
+        elems = tuple(build(x, env) for x in step[1])
+        return (b.ArrayAttr.get(elems), ["data", "xdsl.dialects.builtin.ArrayAttr", ["tuple", [obs(e) for e in elems]]], False)
+    if k == "cnum":
+        from xdsl.dialects import complex as cplx
+        ty = b.ComplexType(_float_types()[step[3]]())
+        a = cplx.ComplexNumberAttr(f_from_bits(step[1]), f_from_bits(step[2]), ty)
+        return (a, ["param", "xdsl.dialects.complex.ComplexNumberAttr", [fd_obs(step[1]), fd_obs(step[2]), obs(ty)]],
+                all(x in REPARSE_SAFE for x in step[1:3]))
+    if k == "llvm_array":
+        from xdsl.dialects import llvm
+        v = bool(step[1]) if step[2] else step[1]
+        et = build(step[3], env)
+        return (llvm.LLVMArrayType(v, et),
+                ["param", "xdsl.dialects.llvm.LLVMArrayType",
+                 [["data", "xdsl.dialects.builtin.IntAttr", ["bool" if step[2] else "int", step[1]]], obs(et)]], not step[2])
+    if k == "tuple_t":
+        ts = tuple(build(x, env) for x in step[1])
+        return (b.TupleType(ts), ["param", "xdsl.dialects.builtin.TupleType",
+                                  [["data", "xdsl.dialects.builtin.ArrayAttr", ["tuple", [obs(t) for t in ts]]]]], True)
+    if k == "fusedloc":
+        locs = tuple(build(x, env) for x in step[1])
+        md = build(step[2], env)
+        return (b.FusedLoc(locs, md), ["param", "xdsl.dialects.builtin.FusedLoc",
+                                        [["data", "xdsl.dialects.builtin.ArrayAttr", ["tuple", [obs(x) for x in locs]]], obs(md)]], False)
+    raise ValueError(step)
+
+
+def seq_objects(case):
+    env = {}
+    return [seq_build(st, env) for st in case["steps"]]
+
+
+def seq_impl(case):
+    try:
+        built = seq_objects(case)
+    except BaseException as e:  # noqa: BLE001
+        return [-1, exc_code(e)]
+    objs = [x[0] for x in built]
+    eqm, hm = [], []
+    for x in objs:
+        for y in objs:
+            eqm.append(1 if x == y else 0)
+            hm.append(1 if hash(x) == hash(y) else 0)
+    return [eqm, hm]
+
+
+def seq_coq(case):
+    objs = [x[0] for x in seq_objects(case)]
+    w = Walker()
+    fn = "c08_seq" if VARIANT == "cur" else "c08_seq_fix"
+    return fn + " " + coq_list(coq_val(w.attr(o)) for o in objs)
+
+
+def seq_holds(case, res):
+    if res[0] == -1:
+        return False, f"construction through the converter raised exception code {res[1]}"
+    eqm, hm = res
+    built = seq_objects(case)
+    n = len(built)
+    exp = [json.dumps(e, sort_keys=True) for _, e, _ in built]
+    for i, (o, _, reparse) in enumerate(built):
+        got = observe(o, strict_bool=True)
+        if got != exp[i]:
+            return False, (f"step {i} {case['steps'][i]}: the constructed attribute carries {got[:160]} but the constructor "
+                           f"arguments are {exp[i][:160]}")
+        if reparse:
+            try:
+                p = parse_attr(mkctx(), str(o))
+            except BaseException:  # noqa: BLE001
+                continue          # printing / parsing defects belong to C06
+            if not (p == o and o == p):
+                return False, f"step {i}: attribute {o} is not equal to the attribute parsed from its own text"
+    relaxed = VARIANT == "cur"
+    # for == the bool payloads True/False ARE the ints 1/0 (CPython), so they are not "observably different" here
+    key = [e.replace('["bool", ', '["int", ') for e in exp]
+    if relaxed:
+        key = [observe(o, "relax", strict_bool=True) for o, _, _ in built]
+    for i in range(n):
+        for j in range(n):
+            e = eqm[n * i + j]
+            if (key[i] == key[j]) != bool(e):
+                return False, (f"steps {i} and {j} are built from "
+                               f"{'the same' if key[i] == key[j] else 'observably different'} parameters but == is {bool(e)}")
+            if e and not hm[n * i + j] and not nan_objects(built[i][0]):
+                return False, f"steps {i} and {j} are equal but hash differently"
+    return True, ""
+
+
+def seq_nontrivial(case, res):
+    if res[0] == -1:
+        return None
+    n = len(case["steps"])
+    off = any(res[0][n * i + j] for i in range(n) for j in range(n) if i != j)
+    return json.dumps(case["steps"]) if off or any(st[0] in ("cnum", "get_float", "get_array") for st in case["steps"]) else None
+
+
+SEED_SEQS = [
+    [["get_float", 0], ["get_float", NEG_ZERO], ["get_float", 0]],
+    [["get_float", NEG_ZERO], ["get_float", 0], ["get_float", NEG_ZERO]],
+    [["cnum", 0, bits_of(1.0), "f64"], ["cnum", NEG_ZERO, bits_of(1.0), "f64"], ["cnum", 0, bits_of(1.0), "f64"]],
+    [["cnum", NEG_ZERO, bits_of(1.0), "f64"], ["cnum", 0, bits_of(1.0), "f64"]],
+    [["cnum", bits_of(1.0), NEG_ZERO, "f32"], ["cnum", bits_of(1.0), 0, "f32"], ["cnum", bits_of(1.0), NEG_ZERO, "f32"]],
+    [["get_int", 1, False], ["get_int", 1, True], ["get_int", 1, False]],
+    [["get_int", 0, True], ["get_int", 0, False], ["get_float", 0]],
+    [["llvm_array", 1, False, ["itype", 8, 0]], ["llvm_array", 1, True, ["itype", 8, 0]]],
+    [["llvm_array", 1, True, ["ftype", "f32"]], ["llvm_array", 1, False, ["ftype", "f32"]]],
+    [["get_float", CANON_NAN], ["get_float", CANON_NAN + 1], ["get_float", 0xFFF8000000000000], ["get_float", CANON_NAN]],
+    [["get_array", [["fdata", 0, None]]], ["get_array", [["fdata", NEG_ZERO, None]]], ["get_array", [["fdata", 0, None]]]],
+    [["get_array", [["float", NEG_ZERO, "f32"], ["int", 1]]], ["get_array", [["float", 0, "f32"], ["int", 1]]]],
+    [["get_float", bits_of(1.0)], ["get_int", 1, False], ["get_int", 1, True], ["get_float", bits_of(1.0)]],
+    [["fusedloc", [["loc", [97], 1, 2]], ["float", 0, "f64"]], ["fusedloc", [["loc", [97], 1, 2]], ["float", NEG_ZERO, "f64"]]],
+    [["tuple_t", [["itype", 8, 0], ["ftype", "f32"]]], ["tuple_t", [["itype", 8, 0], ["ftype", "f32"]]], ["tuple_t", [["ftype", "f32"]]]],
+    [["get_str", [97]], ["get_str", [97]], ["get_str", []]],
+]
+
+
+def gen_seqs(rng, n):
+    cases = [{"steps": s} for s in SEED_SEQS]
+
+    def twin(bits):        # an ==-equal (or NaN-equal) but observably different float, if there is one
+        if is_zero_bits(bits):
+            return bits ^ NEG_ZERO
+        if is_nan_bits(bits):
+            return rng.choice([bits ^ 1, bits ^ NEG_ZERO])
+        return bits
+
+    while len(cases) < n:
+        kind = rng.choice(["get_float", "cnum", "cnum", "get_int", "llvm_array", "get_array", "fusedloc", "tuple_t"])
+        steps = []
+        if kind == "get_float":
+            b0 = rng.choice(SEQ_FLOATS)
+            steps = [["get_float", x] for x in rng.sample([b0, twin(b0), b0, rng.choice(SEQ_FLOATS)], 4)]
+        elif kind == "cnum":
+            re_, im_ = rng.choice(SEQ_FLOATS), rng.choice(SEQ_FLOATS)
+            ty = rng.choice(["f32", "f64"])
+            vs = [(re_, im_), (twin(re_), im_), (re_, twin(im_)), (re_, im_), (im_, re_)]
+            steps = [["cnum", a, b_, ty] for a, b_ in rng.sample(vs, rng.randint(2, 4))]
+        elif kind == "get_int":
+            v = rng.choice([0, 1])
+            vs = [["get_int", v, False], ["get_int", v, True], ["get_int", v, False], ["get_int", 1 - v, True],
+                  ["get_float", bits_of(float(v))]]
+            steps = rng.sample(vs, rng.randint(2, 4))
+        elif kind == "llvm_array":
+            v = rng.choice([0, 1])
+            et = rand_elt_type(rng)
+            vs = [["llvm_array", v, False, et], ["llvm_array", v, True, et], ["llvm_array", v, False, et],
+                  ["llvm_array", rng.randint(2, 9), False, et]]
+            steps = rng.sample(vs, rng.randint(2, 4))
+        elif kind == "get_array":
+            b0 = rng.choice(SEQ_FLOATS)
+            ty = rng.choice(["f32", "f64"])
+            mk = rng.choice([lambda x: ["fdata", x, None], lambda x: ["float", x, ty], lambda x: ["cnum", x, bits_of(1.0), ty]])
+            extra = [["int", rng.choice([-1, -2, 0, 1])]] if rng.random() < 0.5 else []
+            vs = [["get_array", [mk(b0)] + extra], ["get_array", [mk(twin(b0))] + extra], ["get_array", [mk(b0)] + extra],
+                  ["get_array", extra]]
+            steps = rng.sample(vs, rng.randint(2, 4))
+        elif kind == "fusedloc":
+            b0 = rng.choice(SEQ_FLOATS[:6])
+            locs = [["loc", rand_cps(rng), rng.randint(0, 2), rng.randint(0, 2)] for _ in range(rng.randint(1, 2))]
+            vs = [["fusedloc", locs, ["float", b0, "f64"]], ["fusedloc", locs, ["float", twin(b0), "f64"]],
+                  ["fusedloc", locs, ["simple", "none"]], ["fusedloc", locs, ["float", b0, "f64"]]]
+            steps = rng.sample(vs, rng.randint(2, 4))
+        else:
+            ts = [rand_type(rng, 1) for _ in range(rng.randint(0, 3))]
+            vs = [["tuple_t", ts], ["tuple_t", ts], ["tuple_t", ts[:-1]], ["tuple_t", list(reversed(ts))]]
+            steps = rng.sample(vs, rng.randint(2, 3))
+        cases.append({"steps": steps})
+    return cases
+
+
+def seq_usable(case, stats):
+    try:
+        seq_coq(case)
+        return True
+    except Unsupported as e:
+        stats["seq-unsupported:" + str(e)[:30]] = stats.get("seq-unsupported:" + str(e)[:30], 0) + 1
+    except BaseException as e:  # noqa: BLE001
+        stats["seq-unbuildable:" + type(e).__name__] = stats.get("seq-unbuildable:" + type(e).__name__, 0) + 1
+    return False
 
 
 # ---------------------------------------------------------------------------- scan for user-defined __eq__/__hash__
@@ -1255,6 +1517,11 @@ def run(ctx: Ctx):
     ocases = [c for c in gen_opinfo(rng, 1500 if thorough else 200) if oi_usable(c, stats)]
     differential(ctx, DiffSpec("operation-info-cse-key", REQ, ocases, oi_impl, oi_coq, oi_holds, None, oi_nontrivial,
                                shard=150))
+
+    # 5. sequences through Data.get / parameter converters in one process
+    scases = [c for c in gen_seqs(rng, 1200 if thorough else 250) if seq_usable(c, stats)]
+    differential(ctx, DiffSpec("converter-get-sequences", REQ, scases, seq_impl, seq_coq, seq_holds, None,
+                               seq_nontrivial, shard=150))
 
     ctx.coverage["dropped_or_unsupported_cases"] = stats
     ctx.coverage["observations_outside_the_property"] = [
